@@ -267,6 +267,119 @@ async fn one_run(run: u64, seed: u64, big: bool) -> Value {
     json!({"run": run, "execs": ex, "read": read, "open_err": open_err, "pan": pan, "n_files": files_of(&dir).len(), "events": events})
 }
 
+/// Process mode: the executions are REAL processes run through the real task future of the worker
+/// (`create_task_future`: pipes -> streamer -> flush at task end), one after the other in a seeded order; every execution ends
+/// finished or failed.  The directory is read while the streamers are still alive, i.e. as it would be found if the workers
+/// were killed right after reporting the last task: what a reported task wrote has to be there.
+async fn one_run_proc(run: u64, seed: u64) -> Value {
+    use tako::program::{ProgramDefinition, StdioDef};
+    let mut rng = Rng::new(seed ^ 0x9e0c);
+    let tmp = tempfile::TempDir::with_prefix("hqvp").unwrap();
+    let dir = tmp.path().join("stream");
+    let cwd = tmp.path().to_path_buf();
+    let n_tasks = 1 + rng.below(3) as u32;
+    let n_workers = 1 + rng.below(2) as u32;
+    let mut streamers: BTreeMap<u32, StreamerRef> = BTreeMap::new();
+    for w in 1..=n_workers {
+        streamers.insert(w, StreamerRef::new("uid", WorkerId::new(w)));
+    }
+    // (task, inst, worker, end, out chunks, err chunks)
+    let mut plan: Vec<(u32, u32, u32, &'static str, Vec<(String, usize)>, Vec<(String, usize)>)> = Vec::new();
+    for t in 1..=n_tasks {
+        let n_inst = 1 + rng.below(2) as u32;
+        for i in 0..n_inst {
+            let mut chunks: [Vec<(String, usize)>; 2] = [Vec::new(), Vec::new()];
+            for c in 0..2 {
+                for sidx in 0..rng.below(4) {
+                    let size = [12usize, 20, 64, 300, 9000][rng.below(5)];
+                    chunks[c].push((format!("T{t}I{i}C{c}S{sidx}"), size));
+                }
+            }
+            let end = if rng.below(2) == 0 { "finished" } else { "failed" };
+            plan.push((t, i, 1 + rng.below(n_workers as usize) as u32, end, chunks[0].clone(), chunks[1].clone()));
+        }
+    }
+    // seeded order that keeps the instances of a task in order
+    let mut order: Vec<usize> = Vec::new();
+    let mut done = vec![false; plan.len()];
+    while order.len() < plan.len() {
+        let cands: Vec<usize> = (0..plan.len())
+            .filter(|k| !done[*k] && (0..plan.len()).all(|o| !(plan[o].0 == plan[*k].0 && plan[o].1 < plan[*k].1) || done[o]))
+            .collect();
+        let k = cands[rng.below(cands.len())];
+        done[k] = true;
+        order.push(k);
+    }
+    let mut events: Vec<Value> = Vec::new();
+    let mut ex: Vec<Value> = Vec::new();
+    for k in order {
+        let (t, i, w, end, out, err) = plan[k].clone();
+        // the script prints the chunks of both channels in a seeded interleaving
+        let mut script = String::new();
+        let (mut a, mut b) = (0usize, 0usize);
+        while a < out.len() || b < err.len() {
+            let take_out = b >= err.len() || (a < out.len() && rng.below(2) == 0);
+            let (name, size, redirect) = if take_out { (&out[a].0, out[a].1, "") } else { (&err[b].0, err[b].1, " 1>&2") };
+            script.push_str(&format!("printf '%s' '{}'{};", String::from_utf8(chunk_bytes(name, size)).unwrap(), redirect));
+            if take_out { a += 1 } else { b += 1 }
+        }
+        if end == "failed" {
+            script.push_str("exit 3;");
+        }
+        let program = ProgramDefinition {
+            args: vec!["sh".into(), "-c".into(), script.into()],
+            env: Default::default(),
+            stdout: StdioDef::Pipe,
+            stderr: StdioDef::Pipe,
+            stdin: Vec::new(),
+            cwd: cwd.clone(),
+        };
+        let r = hyperqueue::worker::start::verif_run_streamed_task(
+            streamers.get(&w).unwrap().clone(),
+            program,
+            TaskId::new(JobId::new(1), JobTaskId::new(t)),
+            InstanceId::new(i),
+            dir.clone(),
+        )
+        .await;
+        let ended = match (&r, end) {
+            (Ok(_), "finished") => "finished",
+            (Err(_), "failed") => "failed",
+            _ => "unexpected",
+        };
+        events.push(json!(["proc", t, i, w, ended]));
+        ex.push(json!({"task": t, "inst": i, "worker": w, "end": ended, "file": -1,
+                       "out": out.iter().map(|(n, s)| json!([n, s])).collect::<Vec<_>>(),
+                       "err": err.iter().map(|(n, s)| json!([n, s])).collect::<Vec<_>>(),
+                       "planned_out": out.len(), "planned_err": err.len()}));
+    }
+    pump().await;
+    let _ = panics::take();
+    let read = std::panic::catch_unwind(std::panic::AssertUnwindSafe(|| -> Result<Vec<Value>, String> {
+        let mut log = OutputLog::open(&dir, None).map_err(|e| e.to_string())?;
+        let mut out = Vec::new();
+        for t in 1..=n_tasks {
+            for c in 0..2u32 {
+                match log.verif_read(JobId::new(1), JobTaskId::new(t), c) {
+                    Ok(Some((bytes, inst, finished, superseded))) => out.push(
+                        json!({"task": t, "chan": c, "found": true, "err": "", "tokens": parse(&bytes), "inst": inst, "finished": finished, "superseded": superseded}),
+                    ),
+                    Ok(None) => out.push(json!({"task": t, "chan": c, "found": false, "err": "", "tokens": [], "inst": -1, "finished": false, "superseded": []})),
+                    Err(e) => out.push(json!({"task": t, "chan": c, "found": true, "err": e.to_string(), "tokens": [], "inst": -1, "finished": false, "superseded": []})),
+                }
+            }
+        }
+        Ok(out)
+    }));
+    let (read, open_err, pan) = match read {
+        Ok(Ok(r)) => (r, String::new(), 0),
+        Ok(Err(e)) => (vec![], e, 0),
+        Err(_) => (vec![], panics::take().map(|p| p.0).unwrap_or_default(), 1),
+    };
+    drop(streamers);
+    json!({"run": run, "execs": ex, "read": read, "open_err": open_err, "pan": pan, "n_files": files_of(&dir).len(), "events": events, "mode": "process"})
+}
+
 pub fn main(args: &[String]) -> i32 {
     panics::install();
     let arg = |name: &str| -> Option<&str> {
@@ -283,7 +396,12 @@ pub fn main(args: &[String]) -> i32 {
     local.block_on(&rt, async {
         for r in 0..runs {
             let run = first + r;
-            let v = one_run(run, seed.wrapping_mul(7_919).wrapping_add(run), run % 4 == 0).await;
+            // every fifth run uses real processes through the real task future of the worker
+            let v = if run % 5 == 3 {
+                one_run_proc(run, seed.wrapping_mul(7_919).wrapping_add(run)).await
+            } else {
+                one_run(run, seed.wrapping_mul(7_919).wrapping_add(run), run % 4 == 0).await
+            };
             n_exec += v["execs"].as_array().map(|a| a.len()).unwrap_or(0);
             writeln!(out, "{}", v).unwrap();
         }
